@@ -23,5 +23,6 @@ theorem verdict : (classify Generated.factsC25).Sound (Holds (cfgOf Generated.fa
 #print axioms Hv.BlockStore.addManyWF_nofault
 #print axioms Hv.BlockStore.syncWF_nofault_disk
 #print axioms Hv.BlockStore.loadFile_badcnt
+#print axioms Hv.BlockStore.addManyWF_eq_fast
 
 end Hv.C25
